@@ -412,6 +412,7 @@ impl Pipeline {
             let pipeline_stats = self.stats.clone();
 
             let handle = tokio::spawn(async move {
+                let mut stage_result: Result<()> = Ok(());
                 while let Some(item) = stage_input_rx.recv().await {
                     let start_time = Instant::now();
                     stage_stats.active_items.fetch_add(1, Ordering::Relaxed);
@@ -437,8 +438,20 @@ impl Pipeline {
                                 .total_processed
                                 .fetch_add(1, Ordering::Relaxed);
                         }
-                        Ok(Err(_)) | Err(_) => {
-                            // Stage failed or timed out
+                        Ok(Err(e)) => {
+                            // Stage failed: stop the stream and report the error
+                            pipeline_stats
+                                .items_in_flight
+                                .fetch_sub(1, Ordering::Relaxed);
+                            stage_result = Err(e);
+                            break;
+                        }
+                        Err(_) => {
+                            // Stage timed out: stop the stream and report it
+                            pipeline_stats
+                                .items_in_flight
+                                .fetch_sub(1, Ordering::Relaxed);
+                            stage_result = Err(ZiporaError::configuration("stage timeout"));
                             break;
                         }
                     }
@@ -449,17 +462,31 @@ impl Pipeline {
                 }
 
                 drop(output_tx); // Signal end of stream
+                stage_result
             });
 
             handles.push(handle);
         }
 
         // Wait for all stages to complete
+        let mut first_error: Option<ZiporaError> = None;
         for handle in handles {
-            let _ = handle.await;
+            let stage_result = match handle.await {
+                Ok(r) => r,
+                Err(e) => Err(ZiporaError::configuration(&format!(
+                    "stage task failed: {}",
+                    e
+                ))),
+            };
+            if let Err(e) = stage_result {
+                first_error.get_or_insert(e);
+            }
         }
 
-        Ok(())
+        match first_error {
+            Some(e) => Err(e),
+            None => Ok(()),
+        }
     }
 
     /// Process a batch of items through a single stage
